@@ -34,7 +34,7 @@ PROBES = ["sel_empty", "sel_single", "sel_full_filtered", "sel_c-1", "sel_c", "s
           "basin_feature_exported", "tdms_export", "lazy_stack_export", "reexport_of_product", "same_second_export",
           "tables_with_attrs", "user_section", "tsv_export", "tsv_nan_or_inf", "override_existing", "suffix_added",
           "unapplied_filter_edit", "unfiltered_with_active_filter", "polygon_filter", "logs_carried", "tables_carried",
-          "repeated_export_same_object", "ragged_source", "ragged_nothing_filtered_out"]
+          "repeated_export_same_object", "feature_touched_with_lossy_dtype", "ragged_source", "ragged_nothing_filtered_out"]
 COMPONENTS = {
     "real": ["dclab export.hdf5 / export.tsv / store_filtered_feature / yield_filtered_array_stacks", "dclab RTDCWriter",
              "RTDC_Dict, RTDC_HDF5 (+ file basins), RTDC_Hierarchy, RTDC_TDMS readers", "dclab Filter / PolygonFilter",
@@ -320,9 +320,30 @@ class World:
         x = r.random()
         if len(P) < 6 and ((len(P) < 2 and x < 0.18) or x < 0.05):
             return self.gen_new(r)
+        dt = r.choice([0, 0, 0, 0, 0.4, 1, 61, 3600])
+        follow = getattr(self, "follow_up", None)
+        self.follow_up = None
+        if follow and follow[1] < len(P) and not P[follow[1]].get("broken") and r.random() < 0.7:
+            kind, j, arg = follow
+            ej = P[j]
+            if kind == "export_touched":
+                # the feature that other code touched first is exported next, without a refresh in between
+                av = self.avail(ej)
+                feats = [arg] + [f for f in av if f != arg and r.random() < 0.3]
+                return {"k": "export", "src": j, "feats": feats, "filtered": r.random() < 0.72, "logs": False, "tables": False,
+                        "prefix": r.choice(PREFIXES), "override": False, "reuse": False, "suffix": True, "adopt": False, "sel": None, "dt": dt}
+            if kind == "widen_parent" and ej["parent"] is not None:
+                # a child was exported; now its parent selects more events and the same child object is exported again
+                pj = [k for k, d in enumerate(P) if d is ej["parent"]]
+                if pj:
+                    self.follow_up = ("export_again", j, None)
+                    return {"k": "clear", "src": pj[0], "apply": True, "dt": dt}
+            if kind == "export_again":
+                return {"k": "export", "src": j, "feats": self.gen_feats(r, ej), "filtered": r.random() < 0.72, "logs": False,
+                        "tables": False, "prefix": r.choice(PREFIXES), "override": False, "reuse": False, "suffix": True,
+                        "adopt": False, "sel": None, "dt": dt}
         i = r.randrange(len(P))
         e = P[i]
-        dt = r.choice([0, 0, 0, 0, 0.4, 1, 61, 3600])
         x = r.random()
         nh = sum(1 for d in P if d["kind"] == "hier")
         if x < 0.10 and len(P) < 6 and nh < 3 and self.depth(e) < 2:
@@ -342,6 +363,11 @@ class World:
                     "apply": r.random() < 0.6, "dt": dt}
         if x < 0.46:
             return {"k": "apply", "src": i, "dt": dt}
+        if x < 0.49 and sc:
+            # other code of the user (a plot, a statistic) touches a scalar feature first, with a dtype of its own
+            ft = r.choice(sc)
+            self.follow_up = ("export_touched", i, ft)
+            return {"k": "touch", "src": i, "feat": ft, "dtype": r.choice(["float32", "float32", "int64"]), "dt": dt}
         if x < 0.50:
             return {"k": "clear", "src": i, "apply": r.random() < 0.6, "dt": dt}
         # export
@@ -352,6 +378,8 @@ class World:
                 feats.append(r.choice(feats))
             return {"k": "tsv", "src": i, "feats": feats, "filtered": r.random() < 0.7, "override": r.random() < 0.5,
                     "suffix": r.random() < 0.8, "sel": sel, "dt": dt}
+        if e["kind"] == "hier":
+            self.follow_up = ("widen_parent", i, None)
         return {"k": "export", "src": i, "feats": self.gen_feats(r, e), "filtered": r.random() < 0.72,
                 "logs": r.random() < 0.6, "tables": r.random() < 0.6, "prefix": r.choice(PREFIXES),
                 "override": r.random() < 0.5, "reuse": r.random() < 0.15, "suffix": r.random() < 0.85,
@@ -660,6 +688,15 @@ class World:
         self.ctx.log("a", f"manual {e['tag']}", seeds.short_hash(idx))
         if op.get("apply"):
             self.apply(e)
+
+    def do_touch(self, op):
+        e = self.entry(op)
+        with Producer(self, "touch", e), warnings.catch_warnings():
+            warnings.simplefilter("ignore")
+            np.asarray(e["ds"][op["feat"]], dtype=getattr(np, op["dtype"]))
+        self.ctx.probe("feature_touched_with_lossy_dtype")
+        self.ctx.state_ops += 1
+        self.ctx.log("a", f"touch {e['tag']} {op['feat']} {op['dtype']}")
 
     def do_apply(self, op):
         e = self.entry(op)
